@@ -1,17 +1,8 @@
 import TLVerif.Generated.PrimFacts
-import TLVerif.Generated.RpccallsFacts
 import TLVerif.Prim.Driver
 import TLVerif.Prim.TL1String
 import TLVerif.Prim.TL1StringLemmas
 import TLVerif.Prim.TL2Size
 import TLVerif.Prim.TL2SizeLemmas
 import TLVerif.Props.C33
-import TLVerif.Props.C38
-import TLVerif.Props.C39
-import TLVerif.Rpccalls.ClientConn
-import TLVerif.Rpccalls.ClientConnLemmas
-import TLVerif.Rpccalls.Driver
-import TLVerif.Rpccalls.ReqMem
-import TLVerif.Rpccalls.ServerLimitsLemmas
-import TLVerif.Rpccalls.WorkerPool
 import TLVerif.Util.Hex
